@@ -222,6 +222,8 @@ func runC18(rc *RunCtx) {
 	if faulty {
 		s.SetFaults(40, 2, FaultErrNA)
 	}
+	s.SwarmFreeze()
+	rc.Cfg("sched", fmt.Sprintf("stall=%d yield_on_release=%v", s.FreezePermille, s.YieldOnRelease))
 	s.SetControlled()
 	for i, k := range plan {
 		name := fmt.Sprintf("c%d", i)
